@@ -310,7 +310,7 @@ def judge(gen, run, out):
         viol.append({"mechanism": mech, "detail": d})
 
     if run.status != "ok":
-        v("client-wedged-loop-quiescent", status=run.status, oracle=out)
+        v("client-wedged-loop-" + run.status, status=run.status, oracle=out)
         return viol, obs
     # at no time more than one open connection
     open_now = set()
